@@ -304,6 +304,10 @@ class Gen:
     def query(self):
         """(text, ordered); one statement in four writes its table and column aliases without AS"""
         text, ordered = self._query()
+        if 'cte1' in text and self.r.random() < 0.4:
+            # a CTE name with capital letters, every reference spelled the same way
+            text = text.replace('cte1', self.r.choice(['Recent', 'CTE_X', 'myCte']))
+            self.features.add('cte-name-with-capitals')
         if self.r.random() < 0.25:
             # alias names are lower-case words; CAST(.. AS TYPE) and `cte AS (` are left alone
             text2 = re.sub(r' AS (?=[a-z])', ' ', text)
